@@ -183,6 +183,26 @@ def one_case(rng, res, intern, stream, root, label):
     c2 = created_objects(built2, set(enc.ids))
     if set(c1) & set(c2):
       problems.append("two fdl.build calls share a built object")
+    # a list / dict of the configuration handed to the callables as is would be shared by every build
+    def mutable_inputs(result):
+      seen, hits = set(), []
+      def walk(x):
+        if id(x) in seen:
+          return
+        seen.add(id(x))
+        if hasattr(x, "view") and hasattr(x, "fn"):
+          for v in x.view.values():
+            walk(v)
+        elif isinstance(x, (list, dict, tuple)):
+          if isinstance(x, (list, dict)) and id(x) in enc.ids:
+            hits.append(x)
+          for c in (x.values() if isinstance(x, dict) else x):
+            walk(c)
+      walk(result)
+      return hits
+    if mutable_inputs(built):
+      problems.append("the built graph holds a list / dict object of the configuration itself (every "
+                      "fdl.build of it shares that object)")
     res.count("built")
   else:
     res.count("raised:" + raised)
@@ -205,48 +225,89 @@ def one_case(rng, res, intern, stream, root, label):
 
 
 class Temp:
-  """A user-registered node type whose flatten creates temporaries."""
+  """A user-registered node type whose flatten creates temporaries (fresh lists or a fresh dict)."""
 
-  def __init__(self, items):
+  def __init__(self, items, mode="lists"):
     self.items = items
+    self.mode = mode
 
   def __getitem__(self, i):
     return [self.items[i]]  # a fresh temporary, like flatten
+
+
+def _temp_flatten(t):
+  if t.mode == "dict":
+    return ({i: x for i, x in enumerate(t.items)},), "dict"     # one fresh dict
+  if t.mode == "list":
+    return ([x for x in t.items],), "list"                      # one fresh list
+  return tuple([x] for x in t.items), "lists"                   # fresh one-element lists
+
+
+def _temp_unflatten(vals, mode):
+  if mode == "dict":
+    return Temp([vals[0][i] for i in range(len(vals[0]))], mode)
+  if mode == "list":
+    return Temp(list(vals[0]), mode)
+  return Temp([v[0] for v in vals], mode)
 
 
 def _register_temp():
   try:
     daglish.register_node_traverser(
         Temp,
-        flatten_fn=lambda t: (tuple([x] for x in t.items), None),  # fresh temporary lists
-        unflatten_fn=lambda vals, _: Temp([v[0] for v in vals]),
-        path_elements_fn=lambda t: tuple(daglish.Index(i) for i in range(len(t.items))))
+        flatten_fn=_temp_flatten,
+        unflatten_fn=_temp_unflatten,
+        path_elements_fn=lambda t: ((daglish.Attr("flat"),) if t.mode in ("dict", "list")
+                                    else tuple(daglish.Index(i) for i in range(len(t.items)))))
   except ValueError:
     pass
 
 
 def temporaries_case(rng, res, label):
-  """Oracle-only stream: temporaries created while traversing + forced garbage collection."""
+  """Oracle-only stream: temporaries created while traversing + forced garbage collection.  Several
+  instances of the node type follow each other, so that the temporaries of one are garbage (and their
+  addresses free for reuse) when the next one is flattened."""
   _register_temp()
   n = rng.randint(5, 40)
   cfgs = [fdl.Config(l2.fa, i) for i in range(n)]
   shared = fdl.Config(l2.fa, "shared")
-  root = Temp([c if rng.random() < 0.7 else shared for c in cfgs] + [shared])
-  distinct = {id(x) for x in root.items}
+  leaves = [c if rng.random() < 0.7 else shared for c in cfgs] + [shared]
+  if rng.random() < 0.3:
+    root = Temp(leaves, "lists")
+    groups = [root]
+  else:
+    groups = []
+    i = 0
+    while i < len(leaves):
+      k = rng.randint(1, 3)
+      groups.append(Temp(leaves[i:i + k], rng.choice(["dict", "list", "lists"])))
+      i += k
+    root = groups if rng.random() < 0.5 else Temp(groups, rng.choice(["dict", "list", "lists"]))
+  distinct = {id(x) for x in leaves}
   gc.collect()
   del common.CALL_LOG[:]
   built = instrumented_build(root)
   res.evaluations += 1
   res.count("temporaries")
+  replay = {"label": label, "n": n, "groups": [(g.mode, len(g.items)) for g in groups]}
   if len(INVOKED) != len(distinct) or len({id(b) for b in INVOKED}) != len(distinct):
     res.failures.append(Failure(None, f"C02 {label}: {len(INVOKED)} invocations for {len(distinct)} "
-                                "distinct Buildables under a flatten that creates temporaries",
-                                {"label": label, "n": n}))
-  objs = [x for x in built.items]
-  for a, b in zip(root.items, objs):
+                                "distinct Buildables under a flatten that creates temporaries", replay))
+    return
+  built_groups = [built] if built.__class__ is Temp and root in groups else \
+      (built if isinstance(built, list) else built.items)
+  objs = [x for g in built_groups for x in g.items]
+  if len(objs) != len(leaves):
+    res.failures.append(Failure(None, f"C02 {label}: {len(objs)} built children for {len(leaves)} configured",
+                                replay))
+    return
+  by_cfg = {}
+  for a, b in zip(leaves, objs):
     if b.view["a"] != a.__arguments__["a"]:
-      res.failures.append(Failure(None, f"C02 {label}: wrong result for a temporary-wrapped child",
-                                  {"label": label}))
+      res.failures.append(Failure(None, f"C02 {label}: wrong result for a temporary-wrapped child", replay))
+      break
+    if by_cfg.setdefault(id(a), b) is not b:
+      res.failures.append(Failure(None, f"C02 {label}: one Buildable instance gave two objects", replay))
       break
 
 
